@@ -70,7 +70,9 @@ LEVEL_NOTE = (
 )
 TECHNIQUE = "Lean 4 proof over an executable save/load model + operation-sequence correspondence on real files"
 
-SUFFIX = {"npy": [".npy"], "npz": [".npz"], "raw": [".bin", "", ".stats", ".dat"]}
+# raw targets include names whose ending only LOOKS like a NumPy suffix: the documented dispatch (and the reader's) is
+# case-sensitive, so "stats.NPY" / "stats.Npz" are raw binary files
+SUFFIX = {"npy": [".npy"], "npz": [".npz"], "raw": [".bin", "", ".stats", ".dat", ".NPY", ".Npz"]}
 ARR_RE = re.compile(r"^arr_(0|[1-9][0-9]*)$")
 
 
@@ -193,7 +195,7 @@ def corpus():
     cs = []
     neg = dict(X=[[-11.5, 2.0], [-9.25, 3.0]], spec=dict(idx=[0, 1], other=[2], pos=1, axis=-1))
     more = dict(X=[[-20.0, 1.0]], spec=dict(idx=[0], other=None, pos=0, axis=-1))
-    for kind, suf in (("raw", ".bin"), ("raw", ""), ("npy", ".npy"), ("npz", ".npz")):
+    for kind, suf in (("raw", ".bin"), ("raw", ""), ("npy", ".npy"), ("npz", ".npz"), ("raw", ".NPY"), ("raw", ".nPz")):
         cs.append(dict(kind=kind, suffix=suf, mode="neg", dtype="f64", F=2, nv=True, probe=[[-10.0, 2.5]],
                        ops=[dict(op="S", key=None, compress=False, overwrite=True), dict(op="A", call=neg),
                             dict(op="S", key=None, compress=False, overwrite=True), dict(op="L", key=None),
